@@ -84,6 +84,10 @@ SCENARIOS = {
     # a markup format (structured text) of a per-thread document, again in a process that has formatted many documents before
     'stx': dict(
         src='<dtml-var doc fmt=structured-text>|<dtml-in seq><dtml-var x></dtml-in>', served=5, serve='stx'),
+    # one object all threads reach (a site-wide configuration object, a template default): its attributes are computed, and
+    # computing them runs template code of its own
+    'computed': dict(
+        src='<dtml-with shared><dtml-var title>:<dtml-var a>;<dtml-if motto><dtml-var motto></dtml-if></dtml-with>|<dtml-var expr="shared.title">'),
     'epfs': dict(
         src='%(in seq sort_expr="key")[%(x)s,%(in)]%(if a)[A%(else)[B%(if)]%(a)05d', epfs=True),
 }
@@ -160,11 +164,36 @@ def serve_requests(n, what='sort'):
             _serve_one(what)
 
 
+class Shared:
+    """attributes computed on access by rendering small templates (so that a thread can be preempted half way through)"""
+
+    _t = {}
+
+    def _render(self, key, src, **kw):
+        from DocumentTemplate.DT_HTML import HTML
+        t = self._t.get(key)
+        if t is None:
+            t = self._t[key] = HTML(src)
+            t.cook()
+        return t(**kw)
+
+    @property
+    def title(self):
+        return self._render('title', 'Annual <dtml-if yes>report<dtml-else>-</dtml-if> <dtml-var n>', yes=1, n=7)
+
+    @property
+    def motto(self):
+        return self._render('motto', '<dtml-in ws><dtml-var sequence-item> </dtml-in>', ws=['per', 'aspera'])
+
+
+SHARED = Shared()
+
+
 def namespace(name, i):
     seq = [O(x=1, y=3, w=i), O(x=2, y=2, w=0), O(x=3, y=1, w=i)]
     ns = {'seq': seq, 'key': 'x' if i % 2 == 0 else 'y', 'rev': i % 2 == 0, 'a': i, 'o': O(p='p%d' % i), 'st': 1 + i % 2,
           'emp': [], 'w': i, 'who': 'bob_&_%s\n\'%d\'' % ('ab'[i % 2], i),
-          'doc': 'Report %d\n\n  the *%d*th thread' % (i, i), 'cf': _cf_asc if i % 2 == 0 else _cf_desc, 'sx': 'y/cf,x/cmp/desc' if i % 2 == 0 else 'x/cf,y'}
+          'shared': SHARED, 'doc': 'Report %d\n\n  the *%d*th thread' % (i, i), 'cf': _cf_asc if i % 2 == 0 else _cf_desc, 'sx': 'y/cf,x/cmp/desc' if i % 2 == 0 else 'x/cf,y'}
     if name == 'batch':
         ns['seq'] = ['ab%d' % i, 'cd%d' % i, 'ef%d' % i]
         ns['seq'] = [s for s in ns['seq']]
